@@ -97,7 +97,10 @@ Bracket OneDimensionOptimizationTools::bracketMinimum(
       parameters[0].setValue(xu); fu = function.f(parameters);
       if (fu < bracket.c.f)
       {
-        NumTools::shift<double>(bracket.b.x, bracket.c.x, xu, bracket.c.x + NumConstants::GOLDEN_RATIO_PHI() * (bracket.c.x - bracket.b.x));
+        // (the new trial point is computed from the shifted b and c)
+        bracket.b.x = bracket.c.x;
+        bracket.c.x = xu;
+        xu = bracket.c.x + NumConstants::GOLDEN_RATIO_PHI() * (bracket.c.x - bracket.b.x);
         parameters[0].setValue(xu);
         NumTools::shift<double>(bracket.b.f, bracket.c.f, fu, function.f(parameters));
       }
